@@ -263,6 +263,10 @@ def _exclusive(root: ast.AST, a: ast.AST, b: ast.AST) -> bool:
             # early return in the first arm
             if in_body(a, n.body) and n.body and isinstance(n.body[-1], (ast.Return, ast.Raise, ast.Continue, ast.Break)) and not in_body(b, n.body):
                 return True
+        if isinstance(n, ast.IfExp):
+            under = lambda x, part: any(x is y for y in ast.walk(part))  # noqa: E731
+            if (under(a, n.body) and under(b, n.orelse)) or (under(b, n.body) and under(a, n.orelse)):
+                return True
     return False
 
 
@@ -337,6 +341,71 @@ def bisect_unsorted(model: Model, fn: FunctionInfo) -> list[Lint]:
         seq = unsorted_source(arg)
         if seq is not None:
             out.append(Lint("bisect-unsorted", fn, n.lineno, seq.rsplit(".", 1)[-1], f"`{name}({ast.unparse(n.args[0])[:60]}, ...)`: binary search over `{seq}`, which is not kept sorted (add_record appends new records at the end; synonym lists are sorted only by _merge / add_prefix): present entries are missed or the wrong one is hit"))
+    out += _handwritten_bisect(fn)
+    return out
+
+
+def _handwritten_bisect(fn: FunctionInfo) -> list[Lint]:
+    """``while lo < hi: mid = (lo + hi) // 2; ... xs[mid] ...`` - a binary search written out by hand - over a
+    sequence the package does not keep sorted, where a miss is final (no scan of the same sequence follows)."""
+    out: list[Lint] = []
+    for w in ast.walk(fn.node):
+        if not isinstance(w, ast.While):
+            continue
+        t = w.test
+        if not (isinstance(t, ast.Compare) and len(t.ops) == 1 and isinstance(t.ops[0], (ast.Lt, ast.LtE)) and isinstance(t.left, ast.Name) and isinstance(t.comparators[0], ast.Name)):
+            continue
+        lo, hi = t.left.id, t.comparators[0].id
+        mids = set()
+        for a in ast.walk(w):
+            if isinstance(a, ast.Assign) and len(a.targets) == 1 and isinstance(a.targets[0], ast.Name) and isinstance(a.value, ast.BinOp):
+                v = a.value
+                halved = (isinstance(v.op, ast.FloorDiv) and isinstance(v.right, ast.Constant) and v.right.value == 2) or (isinstance(v.op, ast.RShift) and isinstance(v.right, ast.Constant) and v.right.value == 1)
+                if halved and {x.id for x in ast.walk(v.left) if isinstance(x, ast.Name)} >= {lo, hi}:
+                    mids.add(a.targets[0].id)
+        if not mids:
+            continue
+        seqs = []
+        for sub in ast.walk(w):
+            if isinstance(sub, ast.Subscript) and isinstance(sub.slice, ast.Name) and sub.slice.id in mids and isinstance(sub.value, (ast.Name, ast.Attribute)):
+                seqs.append(sub.value)
+        for seq in seqs[:1]:
+            e: ast.expr = seq
+            alias = {ast.unparse(seq)}
+            hops = 0
+            while isinstance(e, ast.Name) and hops < 3:
+                hops += 1
+                if any(isinstance(c, ast.Call) and isinstance(c.func, ast.Attribute) and c.func.attr == "sort" and isinstance(c.func.value, ast.Name) and c.func.value.id == e.id for c in ast.walk(fn.node)):
+                    e = None  # type: ignore[assignment]
+                    break
+                binds = [a.value for a in ast.walk(fn.node) if isinstance(a, ast.Assign) and any(isinstance(x, ast.Name) and x.id == e.id for x in a.targets)]
+                if len(binds) != 1:
+                    break
+                e = binds[0]
+                alias.add(ast.unparse(e))
+            if e is None:
+                continue
+            src = None
+            if isinstance(e, ast.Attribute) and (e.attr == "records" or e.attr.endswith("_synonyms") or e.attr in ("_all_prefixes", "_all_uri_prefixes")):
+                src = ast.unparse(e)
+            if src is None:
+                continue
+            # a full scan of the same sequence after the search makes a miss of the search harmless
+            fallback = False
+            for n in ast.walk(fn.node):
+                if getattr(n, "lineno", 0) <= (w.end_lineno or w.lineno):
+                    continue
+                its = []
+                if isinstance(n, (ast.For, ast.AsyncFor)):
+                    its.append(n.iter)
+                if isinstance(n, (ast.ListComp, ast.GeneratorExp, ast.SetComp, ast.DictComp)):
+                    its += [g.iter for g in n.generators]
+                if isinstance(n, ast.Compare) and any(isinstance(o, (ast.In, ast.NotIn)) for o in n.ops):
+                    its += n.comparators
+                if any(ast.unparse(i) in alias for i in its):
+                    fallback = True
+            if not fallback:
+                out.append(Lint("bisect-unsorted", fn, w.lineno, src.rsplit(".", 1)[-1], f"a binary search written out by hand (`while {lo} < {hi}` halving on `{ast.unparse(seq)}[{sorted(mids)[0]}]`) over `{src}`, which is not kept sorted (add_record appends new records at the end; synonym lists are sorted only by _merge / add_prefix), and a miss is final: present entries are not found"))
     return out
 
 
